@@ -370,6 +370,36 @@ def _apply_custom_io_names_on_ir(
             raise ValueError(
                 f"output_names length ({len(output_names)}) does not match graph outputs ({len(graph_outputs)})."
             )
+        # Every named output needs a value of its own: an output that IS a graph
+        # input, or repeats an earlier output, cannot carry a second name (renaming
+        # it would rename the input / the other output as well).
+        taken = {id(v) for v in graph.inputs}
+        existing_names = {
+            name
+            for name in (getattr(v, "name", None) for v in _top_graph_value_map(graph).values())
+            if name
+        }
+        for idx, value in enumerate(graph_outputs):
+            if id(value) not in taken:
+                taken.add(id(value))
+                continue
+            alias_name = f"{getattr(value, 'name', None) or 'out'}_alias_{idx}"
+            while alias_name in existing_names:
+                alias_name += "_"
+            existing_names.add(alias_name)
+            alias = ir.Value(name=alias_name, type=value.type, shape=value.shape)
+            graph.append(
+                ir.Node(
+                    "",
+                    "Identity",
+                    inputs=[value],
+                    outputs=[alias],
+                    name=f"{alias_name}_identity",
+                )
+            )
+            graph.outputs[idx] = alias
+            graph_outputs[idx] = alias
+            taken.add(id(alias))
         rename_pairs.extend(zip(graph_outputs, output_names))
 
     if not rename_pairs:
